@@ -2,6 +2,7 @@ package rules
 
 import (
 	"fmt"
+	"go/token"
 	"go/types"
 	"runtime"
 	"sort"
@@ -61,19 +62,48 @@ func narrowArgs(c *core.Ctx, fn *ssa.Function, n *absint.Tok, in *absint.List) [
 	prop := c.Named("component_definition", "Property")
 	n.Fields["Injects"] = in
 	var args []absint.Value
-	for _, pa := range fn.Params {
+	for i, pa := range fn.Params {
 		switch {
 		case core.NamedOf(pa.Type()) == prop:
 			args = append(args, n)
 		default:
-			if _, isSl := pa.Type().Underlying().(*types.Slice); isSl {
+			meta := c.Named("component_definition", "Meta")
+			if sl, isSl := pa.Type().Underlying().(*types.Slice); isSl && (meta == nil || core.NamedOf(sl.Elem()) == meta) {
 				args = append(args, in)
+			} else if g := onlyGlobalArg(c, fn, i); g != nil {
+				// a parameter every caller fills from one package-level variable (the list of stages): its value
+				args = append(args, &absint.Lazy{Eval: func(ip *absint.Interp) absint.Value { return ip.LoadGlobal(g) }})
 			} else {
 				args = append(args, absint.NewTok("recv:"+pa.Name(), "processor"))
 			}
 		}
 	}
 	return args
+}
+
+// onlyGlobalArg: every in-scope call of fn passes the current value of one and the same package-level variable for
+// parameter i; that variable, else nil.
+func onlyGlobalArg(c *core.Ctx, fn *ssa.Function, i int) *ssa.Global {
+	var g *ssa.Global
+	for _, cs := range c.CallSites(func(com *ssa.CallCommon) bool { return core.IsCallTo(com, fn) }) {
+		args := cs.Common().Args
+		if i >= len(args) {
+			return nil
+		}
+		ld, ok := core.Norm(args[i]).(*ssa.UnOp)
+		if !ok || ld.Op != token.MUL {
+			return nil
+		}
+		x, ok := ld.X.(*ssa.Global)
+		if !ok || (g != nil && g != x) {
+			return nil
+		}
+		g = x
+	}
+	if len(c.FuncValueUses(fn)) != 0 {
+		return nil
+	}
+	return g
 }
 
 // narrowCallArgs picks the property and the candidate list out of an intercepted call of the narrowing function.
@@ -87,7 +117,7 @@ func narrowCallArgs(c *core.Ctx, fn *ssa.Function, a []absint.Value) (*absint.To
 		}
 		if core.NamedOf(pa.Type()) == prop {
 			pr, _ = a[i].(*absint.Tok)
-		} else if _, isSl := pa.Type().Underlying().(*types.Slice); isSl {
+		} else if sl, isSl := pa.Type().Underlying().(*types.Slice); isSl && core.NamedOf(sl.Elem()) == c.Named("component_definition", "Meta") {
 			lst = a[i]
 		}
 	}
@@ -558,13 +588,106 @@ func propertiesLoop(p *procInfo) *core.RangeLoop {
 	return nil
 }
 
+// propsIter: where a processor iterates over its properties: the loop in its own method, or the loop of an iterator
+// helper that is handed the properties and a visitor literal of the method (the per-property body).
+type propsIter struct {
+	fn    *ssa.Function
+	rl    *core.RangeLoop
+	visit *ssa.Function   // nil when the loop body is in fn itself
+	mc    ssa.Instruction // where the method makes the visitor
+}
+
+func propertiesIteration(c *core.Ctx, p *procInfo) *propsIter {
+	if rl := propertiesLoop(p); rl != nil {
+		return &propsIter{fn: p.Props, rl: rl}
+	}
+	var param *ssa.Parameter
+	for _, pa := range p.Props.Params {
+		if _, ok := pa.Type().Underlying().(*types.Slice); ok {
+			param = pa
+		}
+	}
+	if param == nil {
+		return nil
+	}
+	for _, ci := range core.Calls(p.Props) {
+		call, ok := ci.(*ssa.Call)
+		if !ok {
+			continue
+		}
+		h := call.Common().StaticCallee()
+		if h == nil || h.Blocks == nil || !(c.InScope(h) || (h.Origin() != nil && c.InScope(h.Origin()))) {
+			continue
+		}
+		args := call.Common().Args
+		if len(args) != len(h.Params) {
+			continue
+		}
+		si := -1
+		for i, a := range args {
+			if core.Norm(a) == ssa.Value(param) {
+				si = i
+			}
+		}
+		if si < 0 {
+			continue
+		}
+		for _, rl := range core.RangeLoops(h) {
+			if core.Norm(rl.Slice) != ssa.Value(h.Params[si]) {
+				continue
+			}
+			// the whole per-property loop moved into a collaborator that is handed the properties
+			hasClosureArg := false
+			for _, a := range args {
+				if lit := core.ClosureOf(a); lit != nil && core.TopLevel(lit) == p.Props {
+					hasClosureArg = true
+				}
+			}
+			if !hasClosureArg && containsFn(p.Body, h) && len(core.RangeLoops(p.Props)) == 0 {
+				return &propsIter{fn: h, rl: rl}
+			}
+			// the visitor: a function parameter called once in the loop with the element, whose result is not a bool
+			for b := range rl.Loop.Blocks {
+				for _, in := range b.Instrs {
+					dc, ok := in.(*ssa.Call)
+					if !ok {
+						continue
+					}
+					fp, isParam := dc.Common().Value.(*ssa.Parameter)
+					if !isParam || dc.Common().IsInvoke() || len(dc.Common().Args) == 0 || !rl.ElemOf(dc.Common().Args[0]) {
+						continue
+					}
+					if res := dc.Common().Signature().Results(); res.Len() == 1 {
+						if bt, isB := res.At(0).Type().Underlying().(*types.Basic); isB && bt.Kind() == types.Bool {
+							continue // the selecting predicate
+						}
+					}
+					for j, hp := range h.Params {
+						if hp == fp {
+							if lit := core.ClosureOf(args[j]); lit != nil && core.TopLevel(lit) == p.Props {
+								var mc ssa.Instruction
+								if m, isMC := args[j].(*ssa.MakeClosure); isMC {
+									mc = m
+								}
+								return &propsIter{fn: h, rl: rl, visit: lit, mc: mc}
+							}
+						}
+					}
+				}
+			}
+		}
+	}
+	return nil
+}
+
 func c08LoopIndependence(c *core.Ctx, r *core.Report, p *procInfo) {
 	cons := "props-loop:" + p.Name()
-	rl := propertiesLoop(p)
-	if rl == nil {
+	it := propertiesIteration(c, p)
+	if it == nil {
 		r.Undecided("C08.R1", cons, c.FnPos(p.Props), "no forward range over the properties parameter found")
 		return
 	}
+	rl := it.rl
 	bad := ""
 	for b := range rl.Loop.Blocks {
 		if b == rl.Header {
